@@ -8,7 +8,10 @@ package rules
 
 import (
 	"fmt"
+	"go/constant"
 	"go/token"
+	"go/types"
+	"strings"
 
 	"golang.org/x/tools/go/ssa"
 
@@ -68,15 +71,61 @@ func c11MaybeNilReturns(fn *ssa.Function) []*ssa.Return {
 // c11EverySuccessPathPasses reports the first maybe-nil Return of fn (not exempted) that is
 // reachable from the entry without executing an instruction satisfying passes; nil if none.
 func c11EverySuccessPathPasses(fn *ssa.Function, passes func(ssa.Instruction) bool, exempt func(*ssa.Return) bool) *ssa.Return {
+	res := fn.Signature.Results()
+	hasErr := res.Len() > 0 && res.At(res.Len()-1).Type().String() == "error"
 	for _, r := range c11MaybeNilReturns(fn) {
 		if exempt != nil && exempt(r) {
 			continue
 		}
-		if eng.ReachFromEntry(fn, eng.PathQuery{Target: func(i ssa.Instruction) bool { return i == ssa.Instruction(r) }, Avoid: passes}) != nil {
+		// a single exit `return err` serves the failing and the successful paths: the paths on
+		// which the returned error is known to be non-nil are not successful paths
+		var cut func(from *ssa.BasicBlock, succIdx int) bool
+		if rr := eng.ReturnResults(r); hasErr && len(rr) > 0 && !eng.IsNilConst(rr[len(rr)-1]) {
+			v := rr[len(rr)-1]
+			cut = func(from *ssa.BasicBlock, succIdx int) bool { return c11EdgeMakesNonNil(from, succIdx, v) }
+		}
+		if eng.ReachFromEntry(fn, eng.PathQuery{Target: func(i ssa.Instruction) bool { return i == ssa.Instruction(r) }, Avoid: passes, BlockEdge: cut}) != nil {
 			return r
 		}
 	}
 	return nil
+}
+
+// c11EdgeMakesNonNil reports whether taking the CFG edge from → from.Succs[succIdx] establishes
+// that v is non-nil when it is returned: the edge is the branch `v != nil` (however the
+// condition is written), or v is a phi at the edge's target whose value flowing in over this
+// edge is known non-nil on it.
+func c11EdgeMakesNonNil(from *ssa.BasicBlock, succIdx int, v ssa.Value) bool {
+	if succIdx < 0 || succIdx >= len(from.Succs) {
+		return false
+	}
+	nonNil := func(x ssa.Value) bool {
+		for _, r := range eng.EdgeRels(from, succIdx) {
+			if r.Op != token.NEQ {
+				continue
+			}
+			if (r.X == x && eng.IsNilConst(r.Y)) || (r.Y == x && eng.IsNilConst(r.X)) {
+				return true
+			}
+		}
+		return false
+	}
+	if _, isPhi := v.(*ssa.Phi); !isPhi {
+		// v is defined once: the fact, established on an edge v's definition dominates, still holds at the return
+		return nonNil(v)
+	}
+	phi := v.(*ssa.Phi)
+	to := from.Succs[succIdx]
+	if to == phi.Block() {
+		for i, p := range to.Preds {
+			if p == from && i < len(phi.Edges) && !eng.IsNilConst(phi.Edges[i]) && nonNil(phi.Edges[i]) {
+				return true
+			}
+		}
+		return false
+	}
+	// an edge below the phi (the phi's block dominates it) testing the phi itself
+	return nonNil(v)
 }
 
 // c11Passes lifts a call predicate through same-package helpers: an instruction passes P
@@ -138,15 +187,105 @@ func c11(c *eng.Ctx) {
 	c11R4(c)
 }
 
+// The sub-syncers of ClusterInfo.Sync, by name and — after a rename or a method → function
+// conversion — by role: the function of the package working on a ClusterInfo (receiver or
+// parameter) that takes the part of the object it applies (the annotations map, the
+// SecureServing section, the server list) and does not merely forward it.
+func c11SubSyncer(c *eng.Ctx, name string, match func(types.Type) bool, also func(*ssa.Function) bool) *ssa.Function {
+	return roleAnchor(c, c.W.Method(pkgClusters, "ClusterInfo", name), "method ("+pkgClusters+".ClusterInfo)."+name, func() []*ssa.Function {
+		var cs []*ssa.Function
+		for _, f := range funcsWithParam(c, pkgClusters, match) {
+			if hasSelf(f, tClusterInfo) && (also == nil || also(f)) {
+				cs = append(cs, f)
+			}
+		}
+		return deepest(cs)
+	})
+}
+
+func c11GateSyncer(c *eng.Ctx) *ssa.Function {
+	isAnnotations := func(t types.Type) bool {
+		m, ok := t.Underlying().(*types.Map)
+		if !ok {
+			return false
+		}
+		k, ok1 := m.Key().Underlying().(*types.Basic)
+		v, ok2 := m.Elem().Underlying().(*types.Basic)
+		return ok1 && ok2 && k.Kind() == types.String && v.Kind() == types.String
+	}
+	return c11SubSyncer(c, "syncFeatureGate", isAnnotations, func(f *ssa.Function) bool {
+		// … that applies gates: a MutableFeatureGate.Set / SetFromMap is reachable in its region
+		for _, g := range c.W.Region(f) {
+			if len(eng.CallsTo(g, "("+c11TGate+").Set", "("+c11TGate+").SetFromMap")) > 0 {
+				return true
+			}
+		}
+		return false
+	})
+}
+
+func c11SecureSyncer(c *eng.Ctx) *ssa.Function {
+	return c11SubSyncer(c, "syncSecureServingConfigLocked", namedOrPtrTo(pkgV1alpha1+".SecureServing"), nil)
+}
+
+func c11EndpointSyncer(c *eng.Ctx) *ssa.Function {
+	isServers := func(t types.Type) bool {
+		sl, ok := t.Underlying().(*types.Slice)
+		return ok && eng.TypeName(sl.Elem()) == c11TServer
+	}
+	return c11SubSyncer(c, "syncEndpoints", isServers, nil)
+}
+
+// paramOfType returns the first parameter of fn (receiver included) whose type satisfies match;
+// the parameter at position dflt when none does.
+func paramOfType(fn *ssa.Function, match func(types.Type) bool, dflt int) *ssa.Parameter {
+	for _, p := range fn.Params {
+		if match(p.Type()) {
+			return p
+		}
+	}
+	if dflt < len(fn.Params) {
+		return fn.Params[dflt]
+	}
+	return nil
+}
+
+// c11EndpointAdder: ClusterInfo.addOrUpdateEndpoint — by role the function working on a
+// ClusterInfo with the signature (endpoint string, disabled bool) error.
+func c11EndpointAdder(c *eng.Ctx) *ssa.Function {
+	return roleAnchor(c, c.W.Method(pkgClusters, "ClusterInfo", "addOrUpdateEndpoint"), "method ("+pkgClusters+".ClusterInfo).addOrUpdateEndpoint", func() []*ssa.Function {
+		var cs []*ssa.Function
+		for _, f := range c.W.FuncsOf(pkgClusters) {
+			if f.Parent() != nil || f.Synthetic != "" || f.Blocks == nil || !hasSelf(f, tClusterInfo) {
+				continue
+			}
+			ps, rs := f.Signature.Params(), f.Signature.Results()
+			var str, bl int
+			for i := 0; i < ps.Len(); i++ {
+				if b, ok := ps.At(i).Type().Underlying().(*types.Basic); ok {
+					switch b.Kind() {
+					case types.String:
+						str++
+					case types.Bool:
+						bl++
+					}
+				}
+			}
+			if str == 1 && bl == 1 && rs.Len() == 1 && rs.At(0).Type().String() == "error" {
+				cs = append(cs, f)
+			}
+		}
+		return cs
+	})
+}
+
 // ---- R1 --------------------------------------------------------------------------------
 // Protects: "each cluster's effective … are those of its latest object". A sub-syncer that
 // is skipped on some successful path leaves that part of the state at the previous
 // version (F11a: no annotations ⇒ gates of the previous object stay switched on).
 func c11R1(c *eng.Ctx) {
 	sync := c.MustMethod(pkgClusters, "ClusterInfo", "Sync")
-	gates := c.MustMethod(pkgClusters, "ClusterInfo", "syncFeatureGate")
-	secure := c.MustMethod(pkgClusters, "ClusterInfo", "syncSecureServingConfigLocked")
-	endpoints := c.MustMethod(pkgClusters, "ClusterInfo", "syncEndpoints")
+	gates, secure, endpoints := c11GateSyncer(c), c11SecureSyncer(c), c11EndpointSyncer(c)
 	if sync == nil || gates == nil || secure == nil || endpoints == nil {
 		return
 	}
@@ -166,9 +305,11 @@ func c11R1(c *eng.Ctx) {
 	sl := c.Slicer()
 	sa := sl.WithArgs()
 	// fromObject: the value derives from field `field` of struct type `typ` of an
-	// *UpstreamCluster parameter.
+	// *UpstreamCluster parameter (a helper of Sync may receive a part of the object, e.g. a
+	// pointer to its Spec: parameters of such helpers are traced into their call sites).
 	fromObject := func(typ, field string) func(ssa.Value) bool {
 		return func(v ssa.Value) bool {
+			sl := sl.WithUp()
 			viaField := sl.DerivesFrom(v, func(x ssa.Value) bool { return eng.FieldAddrOf(x, typ, field) || eng.FieldLoadOf(x, typ, field) })
 			viaParam := sl.DerivesFrom(v, func(x ssa.Value) bool {
 				prm, ok := x.(*ssa.Parameter)
@@ -215,8 +356,15 @@ func c11R1(c *eng.Ctx) {
 		}
 		ok := true
 		for _, ci := range sites {
-			a := eng.Args(ci)
-			ok = ok && len(a) >= 1 && s.input(a[0])
+			// the input is the first argument that is not the ClusterInfo itself (a sub-syncer
+			// turned into a function takes the ClusterInfo as an ordinary argument)
+			var in ssa.Value
+			for _, a := range eng.Args(ci) {
+				if in == nil && !namedOrPtrTo(tClusterInfo)(a.Type()) {
+					in = a
+				}
+			}
+			ok = ok && in != nil && s.input(in)
 		}
 		c.Check("R1", sync, "sub-syncer "+s.name+" fed from the object", sites[0].Pos(), ok, "the sub-syncer's input must be "+s.what)
 	}
@@ -306,15 +454,23 @@ func c11R2(c *eng.Ctx) {
 				ok, why = false, "the fresh gate Set was applied to is never stored into ClusterInfo.featuregate: the annotation has no effect"
 			}
 		}
+		if !ok {
+			// the gate may travel through helper results before it is installed (a helper returning
+			// the gate with a `changed` flag): decide on the paths of the gate syncer
+			if g := c11GateSyncer(c); g != nil && c11GatesInstalledFresh(c, g) {
+				ok, why = true, "on every successful path that applies the annotation, Set acts on a fresh DeepCopy() of the defaults which is the gate left in ClusterInfo.featuregate (decided by forcing)"
+			}
+		}
 		c.Check("R2", fn, fmt.Sprintf("MutableFeatureGate.Set#%d on a fresh copy of the defaults", k+1), ci.Pos(), ok, why)
-		// the argument is the object's annotation value
+		// the argument is the object's annotation value (possibly handed down to a helper)
 		a := eng.Args(ci)
-		okArg := len(a) == 1 && sl.DerivesFrom(a[0], func(x ssa.Value) bool {
+		slu := sl.WithUp()
+		okArg := len(a) == 1 && slu.DerivesFrom(a[0], func(x ssa.Value) bool {
 			lk, isL := x.(*ssa.Lookup)
 			if !isL {
 				return false
 			}
-			return sl.DerivesFrom(lk.Index, func(y ssa.Value) bool {
+			return slu.DerivesFrom(lk.Index, func(y ssa.Value) bool {
 				g, isG := y.(*ssa.Global)
 				return isG && g.Name() == "FeatureGateAnnotationKey"
 			})
@@ -332,14 +488,20 @@ func c11R2(c *eng.Ctx) {
 		fn := st.Parent()
 		n[eng.FuncName(fn)]++
 		fresh, kept, other := classify(st.Val)
-		c.Check("R2", fn, fmt.Sprintf("store ClusterInfo.featuregate#%d is a fresh copy of the defaults", n[eng.FuncName(fn)]), st.Pos(), len(fresh) > 0 && !kept && !other,
+		okStore := len(fresh) > 0 && !kept && !other
+		if !okStore {
+			// which value is stored may depend on the path (a helper returning the gate together
+			// with a flag that guards the store): decide on the paths of the storing function
+			okStore = c11GateStoresFresh(c, c06Outermost(fn))
+		}
+		c.Check("R2", fn, fmt.Sprintf("store ClusterInfo.featuregate#%d is a fresh copy of the defaults", n[eng.FuncName(fn)]), st.Pos(), okStore,
 			"a cluster's gates must start from a private copy of the defaults (sharing the default gate or another cluster's gate couples clusters and histories)")
 	}
 
 	// (c) absent / empty annotation ⇒ defaults: in the gate syncer, on the edge where the
 	// annotation value is empty every path stores a fresh copy or has established
 	// IsDefault(current) == true.
-	gates := c.MustMethod(pkgClusters, "ClusterInfo", "syncFeatureGate")
+	gates := c11GateSyncer(c)
 	if gates == nil {
 		return
 	}
@@ -393,7 +555,7 @@ func c11R2(c *eng.Ctx) {
 	if len(emptyEdges) == 0 {
 		// no special case for the empty value: then every successful path must install a fresh gate
 		bad := c11EverySuccessPathPasses(gates, isFreshStore, nil)
-		c.Check("R2", gates, "absent annotation ⇒ default gates", gates.Pos(), bad == nil, "without a feature-gate annotation the gates must be reset to a fresh copy of the defaults")
+		c.Check("R2", gates, "absent annotation ⇒ default gates", gates.Pos(), bad == nil || c11GatesResetWhenAbsent(c, gates), "without a feature-gate annotation the gates must be reset to a fresh copy of the defaults")
 	} else {
 		ok := true
 		for _, e := range emptyEdges {
@@ -401,8 +563,183 @@ func c11R2(c *eng.Ctx) {
 				ok = false
 			}
 		}
-		c.Check("R2", gates, "absent annotation ⇒ default gates", gates.Pos(), ok, "on the empty-annotation edge every path must store a fresh copy of the defaults unless IsDefault(current gates) holds: otherwise gates of a previous version survive the removal of the annotation")
+		c.Check("R2", gates, "absent annotation ⇒ default gates", gates.Pos(), ok || c11GatesResetWhenAbsent(c, gates), "on the empty-annotation edge every path must store a fresh copy of the defaults unless IsDefault(current gates) holds: otherwise gates of a previous version survive the removal of the annotation")
 	}
+}
+
+// c11GateForce decides the R2 clauses by forcing when the structural reading fails, i.e. when a
+// refactoring spread the gate syncer over helpers that return the gate together with flags
+// (`gates, changed, err := gatesFor(value, c.featuregate)`): which gate is stored then depends
+// on the path. The paths of root (same-package callees followed) are enumerated with
+//
+//   - the gate currently kept in ClusterInfo.featuregate tagged "kept",
+//   - every DeepCopy() of the default gates tagged "fresh@<site>",
+//   - Set / SetFromMap answering nil (the success path) and recording the tag of its receiver,
+//   - optionally len(<annotation value>) and features.IsDefault(…) pinned.
+//
+// The tags travel with the abstract values through phis, tuple results and parameters.
+type c11GatePath struct {
+	stored   []string // tags of the values found in cells named …featuregate at the end of the path ("" = untagged)
+	setOn    []string // tags of the receivers of the Set calls executed
+	maybeNil bool     // the path may return a nil error
+}
+
+func c11GateForce(c *eng.Ctx, root *ssa.Function, pinLen *int64, pinIsDefault *bool) ([]c11GatePath, error) {
+	sl := c.Slicer().WithUp()
+	isDefaults := func(v ssa.Value) bool {
+		return sl.DerivesFrom(v, func(x ssa.Value) bool {
+			g, ok := x.(*ssa.Global)
+			return ok && g.Name() == "DefaultMutableFeatureGate" && g.Pkg != nil && g.Pkg.Pkg.Path() == pkgFeatures
+		})
+	}
+	isAnnotationValue := func(v ssa.Value) bool {
+		return sl.DerivesFrom(v, func(x ssa.Value) bool {
+			lk, isL := x.(*ssa.Lookup)
+			return isL && sl.DerivesFrom(lk.Index, func(y ssa.Value) bool {
+				g, isG := y.(*ssa.Global)
+				return isG && g.Name() == "FeatureGateAnnotationKey"
+			})
+		})
+	}
+	tagOf := func(av eng.AV) string {
+		if av.K == eng.NonNilV && av.C != nil && av.C.Kind() == constant.String {
+			return constant.StringVal(av.C)
+		}
+		return ""
+	}
+	in := &eng.Interp{W: c.W, Depth: eng.LiftDepth, FollowCall: func(callee *ssa.Function) bool { return callee.Pkg == root.Pkg }}
+	nSet := 0
+	in.PinCall = func(cc *ssa.Call, idx int, st *eng.State) (eng.AV, bool) {
+		switch {
+		case eng.MethodNameIs(cc, "DeepCopy") && eng.TypeName(cc.Type()) == c11TGate && isDefaults(eng.Receiver(cc)):
+			return eng.AV{K: eng.NonNilV, C: constant.MakeString(fmt.Sprintf("fresh@%d", cc.Pos()))}, true
+		case eng.IsCall(cc, "("+c11TGate+").Set", "("+c11TGate+").SetFromMap"):
+			if idx < 0 {
+				// a note that travels with the path: the tag of the gate Set acts on
+				nSet++
+				st.SetMem(fmt.Sprintf("note:set#%d", nSet), eng.AV{K: eng.NonNilV, C: constant.MakeString("on:" + tagOf(in.Eval(eng.Receiver(cc), st)))})
+			}
+			return eng.AV{K: eng.NilV}, true
+		case pinIsDefault != nil && eng.IsCall(cc, pkgFeatures+".IsDefault"):
+			return eng.AVBool(*pinIsDefault), true
+		case pinLen != nil && isBuiltin(cc, "len") && len(cc.Call.Args) == 1 && isAnnotationValue(cc.Call.Args[0]):
+			return eng.AVInt(*pinLen), true
+		}
+		return eng.AV{}, false
+	}
+	in.PinLoad = func(ld *ssa.UnOp, path string) (eng.AV, bool) {
+		if eng.FieldLoadOf(ld, tClusterInfo, "featuregate") {
+			return eng.AV{K: eng.NonNilV, C: constant.MakeString("kept")}, true // a store on the path overrides the pin
+		}
+		return eng.AV{}, false
+	}
+	paths, err := in.Run(root, nil)
+	if err != nil {
+		return nil, err
+	}
+	var out []c11GatePath
+	for _, pr := range paths {
+		if pr.Panicked || pr.Final == nil {
+			continue
+		}
+		gp := c11GatePath{maybeNil: true}
+		if n, res := len(pr.Ret), root.Signature.Results(); n > 0 && res.Len() > 0 && res.At(res.Len()-1).Type().String() == "error" {
+			gp.maybeNil = pr.Ret[n-1].K != eng.NonNilV
+		}
+		for _, k := range pr.Final.MemKeys() {
+			av, _ := pr.Final.Mem(k)
+			switch {
+			case strings.HasPrefix(k, "note:set#"):
+				gp.setOn = append(gp.setOn, strings.TrimPrefix(tagOf(av), "on:"))
+			case strings.HasSuffix(k, ".featuregate"):
+				if tagOf(av) == "" && (av.K == eng.NilV || av.K == eng.NonNilV) {
+					continue // refined by a nil comparison, not stored
+				}
+				gp.stored = append(gp.stored, tagOf(av))
+			}
+		}
+		out = append(out, gp)
+	}
+	return out, nil
+}
+
+// c11GatesInstalledFresh (forcing form of R2 a): with a non-empty annotation and a successful
+// Set, on every successful path that applies the annotation the gate Set acted on is a fresh
+// copy of the defaults and is the gate found in ClusterInfo.featuregate at the end.
+func c11GatesInstalledFresh(c *eng.Ctx, root *ssa.Function) bool {
+	one := int64(1)
+	paths, err := c11GateForce(c, root, &one, nil)
+	if err != nil {
+		return false
+	}
+	n := 0
+	for _, p := range paths {
+		if !p.maybeNil || len(p.setOn) == 0 {
+			continue
+		}
+		n++
+		for _, t := range p.setOn {
+			if !strings.HasPrefix(t, "fresh@") {
+				return false
+			}
+			installed := false
+			for _, s := range p.stored {
+				installed = installed || s == t
+			}
+			if !installed {
+				return false
+			}
+		}
+	}
+	return n > 0
+}
+
+// c11GatesResetWhenAbsent (forcing form of R2 c): with an empty annotation value and current
+// gates that are not the defaults, every successful path leaves a fresh copy of the defaults in
+// ClusterInfo.featuregate.
+func c11GatesResetWhenAbsent(c *eng.Ctx, root *ssa.Function) bool {
+	zero, no := int64(0), false
+	paths, err := c11GateForce(c, root, &zero, &no)
+	if err != nil {
+		return false
+	}
+	n := 0
+	for _, p := range paths {
+		if !p.maybeNil {
+			continue
+		}
+		n++
+		fresh := false
+		for _, s := range p.stored {
+			if !strings.HasPrefix(s, "fresh@") {
+				return false
+			}
+			fresh = true
+		}
+		if !fresh {
+			return false
+		}
+	}
+	return n > 0
+}
+
+// c11GateStoresFresh (forcing form of R2 b): on every path through root every gate stored into
+// a featuregate cell is a fresh copy of the defaults.
+func c11GateStoresFresh(c *eng.Ctx, root *ssa.Function) bool {
+	paths, err := c11GateForce(c, root, nil, nil)
+	if err != nil {
+		return false
+	}
+	n := 0
+	for _, p := range paths {
+		for _, s := range p.stored {
+			n++
+			if !strings.HasPrefix(s, "fresh@") {
+				return false
+			}
+		}
+	}
+	return n > 0
 }
 
 // ---- R3 --------------------------------------------------------------------------------
@@ -525,23 +862,91 @@ func c11SetCall(ci ssa.CallInstruction, name string) bool {
 	return r != nil && eng.MethodNameIs(ci, name) && eng.TypeName(r.Type()) == c11TSet
 }
 
-// c11SetOrigin resolves a goset.Set value to the single call that created it (NewSet,
-// NewSetFromStrings, Diff, …), through local cells and closure captures; nil if ambiguous.
-func c11SetOrigin(c *eng.Ctx, v ssa.Value) *ssa.Call {
-	var out *ssa.Call
+// c11Set identifies a goset.Set by the call that created it (NewSet, NewSetFromStrings, Diff,
+// a helper returning the set …) and, for a call with several results, the result position
+// (`wanted, disabled := split(servers)`: two sets of one call); idx is -1 for a single result.
+type c11Set struct {
+	call *ssa.Call
+	idx  int
+}
+
+func (a *c11Set) same(b *c11Set) bool {
+	return a != nil && b != nil && a.call == b.call && a.idx == b.idx
+}
+
+// c11SetOrigin resolves a goset.Set value to the single call (and result position) that created
+// it, through local cells and closure captures; nil if ambiguous.
+func c11SetOrigin(c *eng.Ctx, v ssa.Value) *c11Set {
+	var out *c11Set
 	n := 0
 	// a set handed to an extracted helper as a parameter is the set created at the helper's call site
 	for _, leaf := range c.Slicer().WithUp().Leaves(v, func(x ssa.Value) bool { cc, _ := eng.CallResultOf(x); return cc != nil }) {
 		if eng.IsNilConst(leaf) {
 			continue
 		}
-		n++
-		out, _ = eng.CallResultOf(leaf)
+		cc, idx := eng.CallResultOf(leaf)
+		if cc == nil {
+			return nil
+		}
+		if o := (&c11Set{cc, idx}); !o.same(out) {
+			n++
+			out = o
+		}
 	}
 	if n != 1 {
 		return nil
 	}
 	return out
+}
+
+// c11InnerSet follows a set that is the result of a same-repository helper (`names :=
+// namesOf(list)`, `wanted, disabled := split(servers)`) into the helper: every return of the
+// helper must yield, in that result position, one set created by the helper itself. It returns
+// the innermost creating call, the function it sits in (the anchor for loop queries), that
+// function's region, and the slice predicate translated into the helper (the helper's slice
+// parameter stands for the argument of the call). why is non-empty when a helper was met
+// whose result cannot be resolved.
+func c11InnerSet(c *eng.Ctx, anchor *ssa.Function, fns []*ssa.Function, origin *c11Set, isSlice func(ssa.Value) bool) (*ssa.Function, []*ssa.Function, *c11Set, func(ssa.Value) bool, string) {
+	for d := 0; d < eng.LiftDepth && origin != nil; d++ {
+		h := origin.call.Call.StaticCallee()
+		if h == nil || !eng.Analysable(h) || origin.call.Call.IsInvoke() || h == anchor {
+			break
+		}
+		pos := origin.idx
+		if pos < 0 {
+			pos = 0
+		}
+		res := h.Signature.Results()
+		if pos >= res.Len() || eng.TypeName(res.At(pos).Type()) != c11TSet {
+			break
+		}
+		var inner *c11Set
+		nRet, same := 0, true
+		eng.Instrs(h, func(ins ssa.Instruction) {
+			if r, ok := ins.(*ssa.Return); ok && ins.Block() != h.Recover && pos < len(eng.ReturnResults(r)) {
+				nRet++
+				o := c11SetOrigin(c, eng.ReturnResults(r)[pos])
+				if o == nil || o.call.Parent() != h || (inner != nil && !o.same(inner)) {
+					same = false
+				}
+				inner = o
+			}
+		})
+		if nRet == 0 || !same || inner == nil {
+			return anchor, fns, origin, isSlice, "the helper building the set does not return one set created by itself"
+		}
+		call, outerSlice := origin.call, isSlice
+		isSlice = func(v ssa.Value) bool {
+			for i, prm := range h.Params {
+				if ssa.Value(prm) == v && i < len(call.Call.Args) {
+					return outerSlice(call.Call.Args[i])
+				}
+			}
+			return false
+		}
+		anchor, fns, origin = h, c.W.Region(h), inner
+	}
+	return anchor, fns, origin, isSlice, ""
 }
 
 // c11LoopSite finds the loop an instruction of anchor's region runs in: the innermost loop
@@ -644,38 +1049,16 @@ func c11EveryPathPasses(fn *ssa.Function, pred func(ssa.Instruction) bool) bool 
 // through its header, and the added value is elem.<field> of that slice. anchor is the
 // function whose region fns is. A set built by a helper (`names := namesOf(list)`) is judged
 // in the helper's body with the helper's slice parameter standing for the argument of that call.
-func c11SetFilled(c *eng.Ctx, anchor *ssa.Function, fns []*ssa.Function, origin *ssa.Call, elemType, field string, isSlice func(ssa.Value) bool, everyIteration bool) (bool, string) {
-	if h := origin.Call.StaticCallee(); h != nil && eng.Analysable(h) && !origin.Call.IsInvoke() && h != anchor && eng.TypeName(origin.Type()) == c11TSet {
-		var inner *ssa.Call
-		nRet, same := 0, true
-		eng.Instrs(h, func(ins ssa.Instruction) {
-			if r, ok := ins.(*ssa.Return); ok && ins.Block() != h.Recover && len(r.Results) == 1 {
-				nRet++
-				o := c11SetOrigin(c, eng.ReturnResults(r)[0])
-				if o == nil || o.Parent() != h || (inner != nil && o != inner) {
-					same = false
-				}
-				inner = o
-			}
-		})
-		if nRet == 0 || !same || inner == nil {
-			return false, "the helper building the set does not return one set created by itself"
-		}
-		sliceIn := func(v ssa.Value) bool {
-			for i, prm := range h.Params {
-				if ssa.Value(prm) == v && i < len(origin.Call.Args) {
-					return isSlice(origin.Call.Args[i])
-				}
-			}
-			return false
-		}
-		return c11SetFilled(c, h, c.W.Region(h), inner, elemType, field, sliceIn, everyIteration)
+func c11SetFilled(c *eng.Ctx, anchor *ssa.Function, fns []*ssa.Function, origin *c11Set, elemType, field string, isSlice func(ssa.Value) bool, everyIteration bool) (bool, string) {
+	var why string
+	if anchor, fns, origin, isSlice, why = c11InnerSet(c, anchor, fns, origin, isSlice); why != "" {
+		return false, why
 	}
 	sl := c.Slicer().WithUp()
 	n := 0
 	for _, fn := range fns {
 		for _, ci := range eng.Calls(fn) {
-			if !c11SetCall(ci, "Add") || c11SetOrigin(c, eng.Receiver(ci)) != origin {
+			if !c11SetCall(ci, "Add") || !c11SetOrigin(c, eng.Receiver(ci)).same(origin) {
 				continue
 			}
 			n++
@@ -710,9 +1093,9 @@ func c11R4(c *eng.Ctx) {
 	sl := c.Slicer()
 
 	// ===== flow-control diff
-	if fn := c.MustMethod(pkgFCRoot, "upstreamLimiter", "syncLocalFlowControls"); fn != nil {
+	if fn := limiterSyncAnchor(c); fn != nil {
 		fns := c.W.Region(fn)
-		newObj := fn.Params[1]
+		newObj := paramOfType(fn, namedOrPtrTo(c11TFlowControl), 1)
 		// values are traced through the parameters of extracted helpers into their call sites
 		up := sl.WithUp()
 		isNewSchemas := func(v ssa.Value) bool {
@@ -720,7 +1103,15 @@ func c11R4(c *eng.Ctx) {
 		}
 		isOldSchemas := func(v ssa.Value) bool {
 			return eng.FieldLoadOf(v, c11TFlowControl, "Schemas") && !up.DerivesFrom(v, func(x ssa.Value) bool { return x == ssa.Value(newObj) }) &&
-				up.DerivesFrom(v, func(x ssa.Value) bool { return eng.IsResultOf(x, "(*"+c11TLimiter+").loadFlowControlSpec") })
+				up.DerivesFrom(v, func(x ssa.Value) bool {
+					// the previously applied spec: what the loader helper returns, i.e. (by role) what was
+					// loaded from the limiter's currentFlowControlSpec cell
+					if eng.IsResultOf(x, "(*"+c11TLimiter+").loadFlowControlSpec") {
+						return true
+					}
+					cc, _ := eng.CallResultOf(x)
+					return cc != nil && eng.IsCall(cc, "(*sync/atomic.Value).Load") && eng.FieldAddrOf(eng.Receiver(cc), c11TLimiter, "currentFlowControlSpec")
+				})
 		}
 		ownMap := func(v ssa.Value) bool { return eng.FieldLoadOf(v, c11TLimiter, "flowControls") }
 
@@ -761,7 +1152,14 @@ func c11R4(c *eng.Ctx) {
 			if lc, _ := eng.CallResultOf(eng.Receiver(ci)); lc != nil && eng.IsCall(lc, "("+pkgFCRemote+".FlowControlCache).LocalFlowControl") {
 				okRecv = true
 				nLeaves := 0
-				for _, leaf := range up.Leaves(eng.Receiver(lc), func(x ssa.Value) bool { cc, _ := eng.CallResultOf(x); return cc != nil }) {
+				// the cache may reach Sync through a helper returning it (lookup-or-create moved out of
+				// the loop): the slice descends into such helpers and stops at the two legitimate
+				// origins; any other origin (another call, a field, a parameter) fails the rule
+				isOrigin := func(x ssa.Value) bool {
+					cc, _ := eng.CallResultOf(x)
+					return cc != nil && (eng.IsCall(cc, "(*"+c11TFCMap+").Load") || eng.IsCall(cc, pkgFCRemote+".NewFlowControlCache"))
+				}
+				for _, leaf := range up.Leaves(eng.Receiver(lc), isOrigin) {
 					nLeaves++
 					cc, idx := eng.CallResultOf(leaf)
 					switch {
@@ -804,12 +1202,12 @@ func c11R4(c *eng.Ctx) {
 		} else {
 			diff := c11SetOrigin(c, eng.Receiver(rangeCall))
 			ok, why := true, "the deleted names are exactly the names of the previous spec that the new spec no longer lists"
-			if diff == nil || !c11SetCall(diff, "Diff") {
+			if diff == nil || !c11SetCall(diff.call, "Diff") {
 				ok, why = false, "the set ranged over is not a set difference"
 			} else {
-				oldSet := c11SetOrigin(c, eng.Receiver(diff))
-				newSet := c11SetOrigin(c, eng.Args(diff)[0])
-				if oldSet == nil || newSet == nil || oldSet == newSet {
+				oldSet := c11SetOrigin(c, eng.Receiver(diff.call))
+				newSet := c11SetOrigin(c, eng.Args(diff.call)[0])
+				if oldSet == nil || newSet == nil || oldSet.same(newSet) {
 					ok, why = false, "the operands of the set difference cannot be resolved to two distinct sets"
 				} else {
 					if o, w := c11SetFilled(c, fn, fns, oldSet, c11TSchema, "Name", isOldSchemas, true); !o {
@@ -824,7 +1222,8 @@ func c11R4(c *eng.Ctx) {
 			isDel := func(i ssa.Instruction) bool { return i == ssa.Instruction(del) }
 			// the map is the limiter's own: the callback reaches it through the receiver of
 			// syncLocalFlowControls (captured by the literal, or bound into the method value)
-			isRecv := func(x ssa.Value) bool { return x == ssa.Value(fn.Params[0]) }
+			self := paramOfType(fn, namedOrPtrTo(c11TLimiter), 0)
+			isRecv := func(x ssa.Value) bool { return x == ssa.Value(self) }
 			ownRecv := up.DerivesFrom(eng.Receiver(del), isRecv)
 			if delBound != nil {
 				ownRecv = up.DerivesFrom(delBound, isRecv) &&
@@ -838,13 +1237,16 @@ func c11R4(c *eng.Ctx) {
 	}
 
 	// ===== endpoints
-	se := c.MustMethod(pkgClusters, "ClusterInfo", "syncEndpoints")
-	au := c.MustMethod(pkgClusters, "ClusterInfo", "addOrUpdateEndpoint")
+	se := c11EndpointSyncer(c)
+	au := c11EndpointAdder(c)
 	if se == nil || au == nil {
 		return
 	}
 	fns := c.W.Region(se)
-	servers := se.Params[1]
+	servers := paramOfType(se, func(t types.Type) bool {
+		st, ok := t.Underlying().(*types.Slice)
+		return ok && eng.TypeName(st.Elem()) == c11TServer
+	}, 1)
 	isServers := func(v ssa.Value) bool { return v == ssa.Value(servers) }
 	var call ssa.CallInstruction
 	var cl *ssa.Function
@@ -883,7 +1285,7 @@ func c11R4(c *eng.Ctx) {
 		return sl.DerivesFrom(v, func(x ssa.Value) bool { return x == ssa.Value(clElem) })
 	}
 	isCall := func(i ssa.Instruction) bool { return i == ssa.Instruction(call) }
-	var disabledSet *ssa.Call
+	var disabledSet *c11Set
 	okCall, whyCall := true, "each wanted endpoint is added or updated with the flag computed for that endpoint"
 	switch {
 	case len(a) != 2 || !fromElem(a[0]):
@@ -898,11 +1300,19 @@ func c11R4(c *eng.Ctx) {
 			okCall, whyCall = false, "the disabled set cannot be resolved"
 		}
 	}
-	if okCall && !c11ReturnsTrue(cl, func(v ssa.Value) bool {
-		// `return err == nil` for the error of addOrUpdateEndpoint: stop at the first failure (Sync then fails and is retried)
-		b, ok := v.(*ssa.BinOp)
-		return ok && b.Op == token.EQL && eng.IsNilConst(b.Y) && sl.DerivesFrom(b.X, func(x ssa.Value) bool { return x == eng.ResultValue(call) })
-	}) {
+	// the callback may stop the iteration only at a failure of addOrUpdateEndpoint (Sync then fails
+	// and is retried): "the returned value is false ⇒ the error of the call is non-nil", however
+	// it is written — `return err == nil`, a guard clause returning false, a named condition
+	failed := &boolFact{w: c.W, atom: func(r eng.Rel, _ *callBind) bool {
+		if r.Op != token.NEQ {
+			return false
+		}
+		isErr := func(v ssa.Value) bool {
+			return sl.DerivesFrom(v, func(x ssa.Value) bool { return x == eng.ResultValue(call) })
+		}
+		return (eng.IsNilConst(r.Y) && isErr(r.X)) || (eng.IsNilConst(r.X) && isErr(r.Y))
+	}}
+	if okCall && !c11FalseOnlyOn(cl, failed) {
 		okCall, whyCall = false, "the Range callback may return false although addOrUpdateEndpoint succeeded: later endpoints are not synced"
 	}
 	c.Check("R4", cl, "addOrUpdateEndpoint(ep, disabled(ep)) for every wanted endpoint", call.Pos(), okCall, whyCall)
@@ -911,9 +1321,11 @@ func c11R4(c *eng.Ctx) {
 	if disabledSet != nil {
 		ok, why := c11SetFilled(c, se, fns, disabledSet, c11TServer, "Endpoint", isServers, false)
 		if ok {
-			for _, f := range fns {
+			// the set may be built by a helper of syncEndpoints: the Adds are then judged there
+			_, dfns, dset, _, _ := c11InnerSet(c, se, fns, disabledSet, isServers)
+			for _, f := range dfns {
 				for _, ci := range eng.Calls(f) {
-					if !c11SetCall(ci, "Add") || c11SetOrigin(c, eng.Receiver(ci)) != disabledSet {
+					if !c11SetCall(ci, "Add") || !c11SetOrigin(c, eng.Receiver(ci)).same(dset) {
 						continue
 					}
 					isPtr := func(v ssa.Value) bool { return eng.FieldLoadOf(v, c11TServer, "Disabled") }
@@ -966,11 +1378,35 @@ func c11R4(c *eng.Ctx) {
 	ctor := c.MustFunc(pkgClusters, "NewEmptyClusterInfo")
 	sts := eng.StoresToField(c.W.AllRepoFuncs(), tClusterInfo, "skipSyncEndpoints")
 	for _, st := range sts {
-		if st.Parent() != ctor {
+		// the constructor, or a helper that runs only as part of it
+		if st.Parent() != ctor && !(ctor != nil && c.W.OwnedBy(st.Parent(), ctor)) {
 			okSkip = false
 		}
 	}
 	c.Check("R4", se, "skipSyncEndpoints is fixed at creation", se.Pos(), okSkip && len(sts) > 0, "the flag that lets syncEndpoints return early may be written only by the constructor")
+}
+
+// c11FalseOnlyOn reports whether every Return of a Range callback yields false only when the
+// fact holds: the returned value being false implies it, or the return is guarded by it.
+func c11FalseOnlyOn(cl *ssa.Function, fact *boolFact) bool {
+	ok := true
+	eng.Instrs(cl, func(ins ssa.Instruction) {
+		r, isR := ins.(*ssa.Return)
+		if !isR || ins.Block() == cl.Recover {
+			return
+		}
+		res := eng.ReturnResults(r)
+		if len(res) != 1 {
+			ok = false
+			return
+		}
+		seen := map[ssa.Value]bool{}
+		if fact.implies(res[0], false, nil, seen, eng.LiftDepth) || fact.anyGuard(eng.GuardsOf(r), nil, seen, eng.LiftDepth) {
+			return
+		}
+		ok = false
+	})
+	return ok
 }
 
 // c11ReturnsTrue reports whether every Return of a Range callback returns the constant
@@ -1086,7 +1522,7 @@ func c11Fixtures(c *eng.Ctx) {
 func c11Extra(c *eng.Ctx) {
 	c.Rule("R5", "the last-applied flow-control spec is recorded whenever the limiter table is touched: in syncLocalFlowControls the (deferred) store of currentFlowControlSpec is established before any Store/Delete/Sync of a limiter, on every path — otherwise a history A → ∅ → A is short-circuited by the unchanged test and the schemas stay removed", 2)
 	c.Rule("R6", "an object is applied only after its names were checked (see C10.R2p): a refused update must not have replaced the cluster's server-name list already", 2)
-	if sl := c.MustMethod(pkgFCRoot, "upstreamLimiter", "syncLocalFlowControls"); sl != nil {
+	if sl := limiterSyncAnchor(c); sl != nil {
 		// the recording: a Store on the currentFlowControlSpec field, directly or in a deferred function
 		// (function literal, method or helper — with whatever the literal's body was spread over)
 		isRecordCall := func(ci ssa.CallInstruction) bool {
